@@ -343,6 +343,9 @@ class Server:
                     raise ServerBacklogFull(len(pipeline))
                 t = timeout * 0.99 - (perf_counter() - t0)
                 if t <= 0 or not self._pipeline_notfull.wait(t):
+                    # A notification may have been spent on this waiter just as its wait
+                    # expired; pass it on, lest another waiter miss the freed slot.
+                    self._pipeline_notfull.notify()
                     raise ServerBacklogFull(len(pipeline), perf_counter() - t0)
             if self._stopped:
                 # The server has been left (while this caller was waiting for room).
@@ -609,7 +612,14 @@ class AsyncServer:
                     asyncio.TimeoutError,
                     TimeoutError,
                 ):  # should be the first one, but official doc referrs to the second
+                    # A notification may have been spent on this waiter just as its wait
+                    # expired; pass it on, lest another waiter miss the freed slot.
+                    self._pipeline_notfull.notify()
                     raise ServerBacklogFull(len(pipeline), perf_counter() - t0)
+                except asyncio.CancelledError:
+                    # Likewise if the caller is cancelled while waiting for room.
+                    self._pipeline_notfull.notify()
+                    raise
 
             # We can't accept situation that an entry is placed in `pipeline`
             # but not in `_input_buffer`, for that entry would be stuck in `pipeline`
